@@ -45,6 +45,9 @@ REAL_VS_STUB = {
              "ConformerEnsemble.load_mol2/load_xyz"],
     "stub": ["input text stream (FaultyLineStream)"],
 }
+FAULT_PROBES = {"eof_at_line_boundary": "eof_at_line_boundary", "eof_inside_line": "eof_inside_line_mid", "eof_inside_final_token": "eof_inside_final_token",
+                "eof_at_molecule_boundary": "eof_at_molecule_boundary", "drop_line": "drop_line", "dup_line": "dup_line", "corrupt_numeric": "corrupt_numeric",
+                "corrupt_count": "corrupt_count", "corrupt_tag": "corrupt_tag"}
 PROBES = ["eof_at_line_boundary", "eof_inside_final_token", "eof_inside_line_mid", "eof_at_molecule_boundary", "drop_line", "dup_line",
           "corrupt_numeric", "corrupt_count", "corrupt_tag", "rejected_with_exception", "returned_strict_prefix", "returned_all_unchanged",
           "stream_channel_used", "generator_entry_partial_then_exception"]
